@@ -2207,7 +2207,8 @@ def _config_str(
     for (scope, selector), config in configuration_object.items():
       if _REGISTRY[selector].wrapped == macro:  # pylint: disable=comparison-with-callable
         # As for parameters below, values without a literal form are omitted.
-        if _is_literally_representable(config['value']):
+        # A failed use of an unbound macro leaves a record with no value.
+        if 'value' in config and _is_literally_representable(config['value']):
           macros[scope, selector] = config
     if macros:
       formatted_statements.append('# Macros:')
